@@ -80,6 +80,13 @@ pub(crate) trait Session {
         flow: Flow,
     ) -> impl Future<Output = Result<Option<SessionOutgoingItem>, Self::Error>> + Send;
 
+    /// Session-level bookkeeping for one received transfer frame (next-incoming-id,
+    /// remote-outgoing-window). The session engine calls it once per frame, before
+    /// `on_incoming_transfer` routes the frame: routing can happen later and a second time
+    /// (a transactional session routes a posted transfer when the transaction commits), the
+    /// frame is received once.
+    fn on_incoming_transfer_frame(&mut self);
+
     /// Handle an incoming transfer.
     ///
     /// An `Ok(Some(Disposition))` is produced only by the transactional session
